@@ -80,6 +80,10 @@ fn alphabet() -> Vec<Req> {
         (r#""method":"org.example.t.sub.Ok""#, Exp::ErrorWith("org.varlink.service.InterfaceNotFound", "interface", "org.example.t.sub")),
         (r#""method":"org.varlink.service.extra.Foo""#, Exp::ErrorWith("org.varlink.service.InterfaceNotFound", "interface", "org.varlink.service.extra")),
         (r#""method":"nodot""#, Exp::ErrorWith("org.varlink.service.InterfaceNotFound", "interface", "nodot")),
+        // a trailing dot is still a dot: the interface is the text before it, the (empty) method is what that interface lacks
+        (r#""method":"org.example.t.""#, Exp::ErrorWith("org.varlink.service.MethodNotFound", "method", "org.example.t.")),
+        (r#""method":"org.example.nope.""#, Exp::ErrorWith("org.varlink.service.InterfaceNotFound", "interface", "org.example.nope")),
+        (r#""method":"org.varlink.service.""#, Exp::ErrorWith("org.varlink.service.MethodNotFound", "method", "org.varlink.service.")),
         (r#""method":"org.example.t.Stream""#, Exp::Params),
     ];
     for (t, e) in base {
@@ -1185,6 +1189,9 @@ fn spawn_fake_peers(sock: &std::path::Path, rsock: &std::path::Path) -> std::syn
                             vec![json!({"continues": true, "parameters": {"n": 1}}), json!({"error": "org.example.Err", "parameters": {"why": "x"}})]
                         } else if method.ends_with(".Stream") {
                             vec![json!({"continues": true, "parameters": {"n": 1}}), json!({"continues": true, "parameters": {"n": 2}}), json!({"parameters": {"n": 3}})]
+                        } else if method.ends_with(".Big") {
+                            // one reply much larger than the 8 KiB buffers on the way, then silence
+                            vec![json!({"parameters": {"blob": "b".repeat(30000)}})]
                         } else if method.ends_with(".Fail") {
                             vec![json!({"error": "org.example.Err", "parameters": {"why": "x"}})]
                         } else {
@@ -1533,6 +1540,8 @@ fn search_bridge(obs: &[&str]) {
         vec![(json!({"method": "org.example.Fail"}), vec![fail.clone()]), (json!({"method": "org.example.Ping"}), vec![pong.clone()])],
         vec![(json!({"method": "org.example.StreamFail", "more": true}), vec![json!({"continues": true, "parameters": {"n": 1}}), fail.clone()]), (json!({"method": "org.other.deep.name.Ping"}), vec![pong.clone()])],
         vec![(json!({"method": "org.varlink.service.GetInfo"}), vec![json!({"parameters": {"vendor": "resolver", "product": "fake", "version": "1", "url": "http://example.org", "interfaces": ["org.varlink.service"]}})])],
+        // a reply of 30 kB arriving in one piece, after which the service stays silent until the next request
+        vec![(json!({"method": "org.example.Big"}), vec![json!({"parameters": {"blob": "b".repeat(30000)}})]), (json!({"method": "org.example.Ping"}), vec![pong.clone()])],
         // the same interface before and after a service-info query (the address cache must not go stale)
         vec![(json!({"method": "org.example.Ping"}), vec![pong.clone()]),
              (json!({"method": "org.varlink.service.GetInfo"}), vec![json!({"parameters": {"vendor": "resolver", "product": "fake", "version": "1", "url": "http://example.org", "interfaces": ["org.varlink.service"]}})]),
